@@ -68,6 +68,9 @@ type G struct {
 	// that changes nothing outside the goroutine) chosen in a select with signature stutterSig
 	stutterSig uint64
 	stutterAlt int32
+	pbuf       pend       // the pending operation (a goroutine has at most one)
+	casebuf    [4]selCase // its cases
+	objbuf     [2]*Obj
 	shared     uint64 // goroutines (dense index < 64) that operate on an object this goroutine also operates on
 }
 
@@ -183,6 +186,8 @@ type World struct {
 	keep     []any
 	Races    []Race
 	raceSigs map[string]bool
+	cellSlab [24]cell
+	ncell    int
 	accesses int64
 
 	record   bool
@@ -264,9 +269,10 @@ func (w *World) newG(parent *G, name string, f func()) *G {
 	if parent != nil {
 		w.setH(g, mix(parent.h, 0x77))
 	}
-	g.pend = &pend{kind: opStart, name: "start"}
+	g.pbuf = pend{kind: opStart, name: "start"}
+	g.pend = &g.pbuf
 	w.live.Add(1)
-	go func() {
+	spawn(func() {
 		defer w.live.Done()
 		defer func() {
 			if r := recover(); r != nil {
@@ -302,8 +308,41 @@ func (w *World) newG(parent *G, name string, f func()) *G {
 		if next != nil {
 			next.wake <- nalt
 		}
-	}()
+	})
 	return g
+}
+
+// Real goroutines are pooled: a virtual goroutine runs on an idle pooled goroutine, which keeps its grown
+// stack for the next one (creating a goroutine and growing its stack for every virtual goroutine of every
+// execution was a sizeable part of the cost of an execution).  Teardown therefore unwinds with a panic that
+// the wrapper recovers (deferred calls of the code under test run, as with runtime.Goexit).
+type poolWorker struct{ run chan func() }
+
+var (
+	poolMu   sync.Mutex
+	poolIdle []*poolWorker
+)
+
+func spawn(f func()) {
+	poolMu.Lock()
+	var pw *poolWorker
+	if n := len(poolIdle); n > 0 {
+		pw = poolIdle[n-1]
+		poolIdle = poolIdle[:n-1]
+	}
+	poolMu.Unlock()
+	if pw == nil {
+		pw = &poolWorker{run: make(chan func(), 1)}
+		go func() {
+			for f := range pw.run {
+				f()
+				poolMu.Lock()
+				poolIdle = append(poolIdle, pw)
+				poolMu.Unlock()
+			}
+		}()
+	}
+	pw.run <- f
 }
 
 type abortT struct{}
@@ -341,7 +380,7 @@ func GoNamed(name string, f func()) {
 
 func (w *World) checkAbort() {
 	if w.aborted.Load() {
-		runtime.Goexit()
+		panic(abortT{})
 	}
 }
 
@@ -349,7 +388,7 @@ func (w *World) checkAbort() {
 // picks it; it returns the chosen alternative.
 func (w *World) yield(p *pend) int32 {
 	if w.aborted.Load() {
-		runtime.Goexit()
+		panic(abortT{})
 	}
 	g := w.cur
 	if g == nil || g.state != gRunning {
@@ -367,7 +406,7 @@ func (w *World) yield(p *pend) int32 {
 		}
 		alt = <-g.wake
 		if alt == altAbort || w.aborted.Load() {
-			runtime.Goexit()
+			panic(abortT{})
 		}
 	}
 	g.state = gRunning
@@ -520,6 +559,11 @@ func (p *pend) describe(alt int32, w *World) string {
 			s = fmt.Sprintf("select case %d: %s", ci, s)
 		}
 		return s
+	case opClose:
+		if len(p.objs) == 1 && p.objs[0] != nil {
+			return "close " + p.objs[0].Label
+		}
+		return p.name
 	default:
 		return p.name
 	}
@@ -544,13 +588,19 @@ func StartExploring() {
 // Quiesce parks the caller until no other normal-priority goroutine is enabled.
 func Quiesce() {
 	w := Cur()
-	w.yield(&pend{kind: opQuiesce, name: "quiesce", code: 0x9999})
+	w.checkAbort() // (teardown: do not overwrite the pending operation the goroutine was parked on)
+	p := &w.cur.pbuf
+	*p = pend{kind: opQuiesce, name: "quiesce", code: 0x9999}
+	w.yield(p)
 }
 
 // Yield is a plain scheduling point (always enabled).
 func Yield(name string) {
 	w := Cur()
-	w.yield(&pend{kind: opSimple, name: name, code: 0x4444})
+	w.checkAbort() // (teardown: do not overwrite the pending operation the goroutine was parked on)
+	p := &w.cur.pbuf
+	*p = pend{kind: opSimple, name: name, code: 0x4444}
+	w.yield(p)
 }
 
 // Point is a scheduling point for shim objects (vsync, vnet): the caller parks until ready() holds and
@@ -558,13 +608,19 @@ func Yield(name string) {
 // object state.  objs are the objects the operation depends on (for the canonical trace).
 func Point(name string, code uint64, ready func() bool, objs ...*Obj) {
 	w := Cur()
-	w.yield(&pend{kind: opSimple, name: name, ready: ready, objs: objs, code: code})
+	w.checkAbort() // (teardown: do not overwrite the pending operation the goroutine was parked on)
+	p := &w.cur.pbuf
+	*p = pend{kind: opSimple, name: name, ready: ready, objs: objs, code: code}
+	w.yield(p)
 }
 
 // PointRead is Point for operations that only observe the objects' state (they commute with each other).
 func PointRead(name string, code uint64, ready func() bool, objs ...*Obj) {
 	w := Cur()
-	w.yield(&pend{kind: opSimple, name: name, ready: ready, objs: objs, code: code, read: true})
+	w.checkAbort() // (teardown: do not overwrite the pending operation the goroutine was parked on)
+	p := &w.cur.pbuf
+	*p = pend{kind: opSimple, name: name, ready: ready, objs: objs, code: code, read: true}
+	w.yield(p)
 }
 
 // PointCommute is Point for updates that observe nothing and commute with each other (WaitGroup.Add/Done:
@@ -572,7 +628,12 @@ func PointRead(name string, code uint64, ready func() bool, objs ...*Obj) {
 // non-commuting operations on the object (Wait).
 func PointCommute(name string, code uint64, obj *Obj) {
 	w := Cur()
-	w.yield(&pend{kind: opSimple, name: name, objs: []*Obj{obj}, code: code, comm: true})
+	w.checkAbort()
+	g := w.cur
+	g.objbuf[0] = obj
+	p := &g.pbuf
+	*p = pend{kind: opSimple, name: name, objs: g.objbuf[:1], code: code, comm: true}
+	w.yield(p)
 }
 
 // share maintains the "operate on a common object" relation between goroutines.
@@ -595,6 +656,7 @@ func (w *World) share(g *G, o *Obj) {
 // NewObj registers a synchronisation object with the current execution.
 func NewObj(label string) *Obj {
 	w := Cur()
+	w.checkAbort()
 	o := &Obj{Label: label, w: w}
 	w.initObj(o)
 	return o
@@ -605,6 +667,7 @@ func NewObj(label string) *Obj {
 // Operations on it are treated as conflicting with every other operation by the sleep-set reduction.
 func NewObjLazy(label string) *Obj {
 	w := Cur()
+	w.checkAbort()
 	w.nobj++
 	w.LazyObjs++
 	return &Obj{Label: label, w: w}
